@@ -14,11 +14,11 @@ func init() {
 }
 
 var (
-	reNegBare   = regexp.MustCompile(`(?is)\bNOT\s*\(\s*%s\s*\)`)
-	reIsNotTrue = regexp.MustCompile(`(?is)\(\s*%s\s*\)\s+IS\s+NOT\s+TRUE`)
+	reNegBare    = regexp.MustCompile(`(?is)\bNOT\s*\(\s*%s\s*\)`)
+	reIsNotTrue  = regexp.MustCompile(`(?is)\(\s*%s\s*\)\s+IS\s+NOT\s+TRUE`)
 	reIsDistinct = regexp.MustCompile(`(?is)\(\s*%s\s*\)\s+IS\s+DISTINCT\s+FROM\s+TRUE`)
-	reCoalesce  = regexp.MustCompile(`(?is)NOT\s+COALESCE\s*\(\s*\(?\s*%s\s*\)?\s*,\s*FALSE\s*\)`)
-	reBareIsNot = regexp.MustCompile(`(?is)[^)\s]\s*%s\s+IS\s+(NOT\s+TRUE|DISTINCT\s+FROM\s+TRUE)|^\s*%s\s+IS\s+(NOT\s+TRUE|DISTINCT)`)
+	reCoalesce   = regexp.MustCompile(`(?is)NOT\s+COALESCE\s*\(\s*\(?\s*%s\s*\)?\s*,\s*FALSE\s*\)`)
+	reBareIsNot  = regexp.MustCompile(`(?is)[^)\s]\s*%s\s+IS\s+(NOT\s+TRUE|DISTINCT\s+FROM\s+TRUE)|^\s*%s\s+IS\s+(NOT\s+TRUE|DISTINCT)`)
 )
 
 // hasFieldFact: some branch fact of the given kind is about a load of Struct.Field.
